@@ -3,14 +3,14 @@ import Swat4.Model.QueueSys
 /-!
 # The probe queue under interleaving (helper lemmas and the invariant of C12)
 
-* list / map facts about `zrangeUpTo` (membership, no duplicates, length bound, order) and `popBatch`;
+* list / map facts about `zrangeUpTo` / `zrangeUpToS` (membership, no duplicates, length bound, order), `popBatch`, and the
+  stable sort `sortByScore` of the returned batch (permutation, sortedness, identity on sorted input, commutes with `map`);
 * `GSys`: `QSys` extended with a ghost log of accepted enqueues (`GEnq`) and of popped entries (`GPop`);
   `GSys.step_sys`: the ghost system projects onto `QSys.stepT` (no behaviour is added or removed);
 * `GStep`: what one event does to the probe part of the state (seven shapes);
 * `GInv` (conservation, at-most-once, id discipline, batch accounting) and `TInv` (timing) with their
   preservation proofs.
 
-Nothing in `Model/` is modified.
 -/
 namespace Swat4
 open Std
@@ -108,6 +108,151 @@ theorem mem_zrangeUpTo {m : ExtTreeMap Nat Int} {hi : Option Int} {limit : Optio
 theorem zrangeUpTo_length_le (m : ExtTreeMap Nat Int) (hi : Option Int) (n : Nat) :
     (zrangeUpTo m hi (some n)).length ≤ n := by
   rw [zrangeUpTo_eq]; simp only [List.length_take]; omega
+
+/-! ## `zrangeUpToS` (`WITHSCORES`) -/
+
+theorem zrangeUpToS_eq (m : ExtTreeMap Nat Int) (hi : Option Int) (limit : Option Nat) :
+    zrangeUpToS m hi limit =
+      match limit with
+      | none => zsort (zsel m hi)
+      | some n => (zsort (zsel m hi)).take n := rfl
+
+/-- the members of the `WITHSCORES` reply are the reply without scores -/
+theorem zrangeUpToS_ids (m : ExtTreeMap Nat Int) (hi : Option Int) (limit : Option Nat) :
+    (zrangeUpToS m hi limit).map (·.1) = zrangeUpTo m hi limit := by
+  rw [zrangeUpToS_eq, zrangeUpTo_eq]
+  cases limit with
+  | none => rfl
+  | some n => exact List.map_take
+
+theorem zrangeUpToS_isEmpty (m : ExtTreeMap Nat Int) (hi : Option Int) (limit : Option Nat) :
+    (zrangeUpToS m hi limit).isEmpty = (zrangeUpTo m hi limit).isEmpty := by
+  rw [← zrangeUpToS_ids, List.isEmpty_map]
+
+/-- every pair of the `WITHSCORES` reply is an entry of the sorted set -/
+theorem mem_zrangeUpToS {m : ExtTreeMap Nat Int} {hi : Option Int} {limit : Option Nat} {p : Nat × Int}
+    (h : p ∈ zrangeUpToS m hi limit) : m[p.1]? = some p.2 := by
+  have hsub : (zrangeUpToS m hi limit).Sublist (zsort (zsel m hi)) := by
+    rw [zrangeUpToS_eq]
+    cases limit with
+    | none => exact List.Sublist.refl _
+    | some n => exact List.take_sublist _ _
+  exact (mem_zsel.1 ((zsort_perm _).mem_iff.1 (hsub.subset h))).1
+
+theorem zip_fst_snd {α β : Type} (l : List (α × β)) : (l.map (·.1)).zip (l.map (·.2)) = l := by
+  induction l with
+  | nil => rfl
+  | cons x xs ih => simp only [List.map_cons, List.zip_cons_cons, ih]
+
+/-! ## `sortByScore`: the stable sort of the returned batch -/
+
+theorem insertByScore_perm {α : Type} (key : α → Int) (x : α) (l : List α) : (insertByScore key x l).Perm (x :: l) := by
+  induction l with
+  | nil => exact List.Perm.refl _
+  | cons y ys ih =>
+    unfold insertByScore
+    split
+    · exact List.Perm.refl _
+    · exact (List.Perm.cons y ih).trans (List.Perm.swap x y ys)
+
+theorem sortByScore_cons {α : Type} (key : α → Int) (x : α) (l : List α) :
+    sortByScore key (x :: l) = insertByScore key x (sortByScore key l) := rfl
+
+/-- the sort only rearranges -/
+theorem sortByScore_perm {α : Type} (key : α → Int) (l : List α) : (sortByScore key l).Perm l := by
+  induction l with
+  | nil => exact List.Perm.refl _
+  | cons x xs ih =>
+    rw [sortByScore_cons]
+    exact (insertByScore_perm key x _).trans (List.Perm.cons x ih)
+
+theorem sortByScore_length {α : Type} (key : α → Int) (l : List α) : (sortByScore key l).length = l.length :=
+  (sortByScore_perm key l).length_eq
+
+theorem insertByScore_sorted {α : Type} (key : α → Int) (x : α) (l : List α)
+    (h : l.Pairwise fun a b => key a ≤ key b) : (insertByScore key x l).Pairwise fun a b => key a ≤ key b := by
+  induction l with
+  | nil => exact List.pairwise_singleton _ _
+  | cons y ys ih =>
+    rw [List.pairwise_cons] at h
+    unfold insertByScore
+    split
+    · rename_i hxy
+      rw [List.pairwise_cons]
+      refine ⟨?_, List.pairwise_cons.2 h⟩
+      intro z hz
+      rcases List.mem_cons.1 hz with rfl | hz'
+      · exact hxy
+      · exact Int.le_trans hxy (h.1 z hz')
+    · rename_i hxy
+      rw [List.pairwise_cons]
+      refine ⟨?_, ih h.2⟩
+      intro z hz
+      rcases List.mem_cons.1 ((insertByScore_perm key x ys).mem_iff.1 hz) with rfl | hz'
+      · omega
+      · exact h.1 z hz'
+
+/-- the result is in non-decreasing key order -/
+theorem sortByScore_sorted {α : Type} (key : α → Int) (l : List α) :
+    (sortByScore key l).Pairwise fun a b => key a ≤ key b := by
+  induction l with
+  | nil => exact List.Pairwise.nil
+  | cons x xs ih => rw [sortByScore_cons]; exact insertByScore_sorted key x _ ih
+
+theorem insertByScore_of_le {α : Type} (key : α → Int) (x : α) (l : List α) (h : ∀ y ∈ l, key x ≤ key y) :
+    insertByScore key x l = x :: l := by
+  cases l with
+  | nil => rfl
+  | cons y ys =>
+    unfold insertByScore
+    rw [if_pos (h y List.mem_cons_self)]
+
+/-- **a list that is already in key order is left as it is** (so in a run without interleaving, where the rounds'
+items come out in order, the final sort of `PopMany` is the identity) -/
+theorem sortByScore_of_sorted {α : Type} (key : α → Int) (l : List α) (h : l.Pairwise fun a b => key a ≤ key b) :
+    sortByScore key l = l := by
+  induction l with
+  | nil => rfl
+  | cons x xs ih =>
+    rw [List.pairwise_cons] at h
+    rw [sortByScore_cons, ih h.2]
+    exact insertByScore_of_le key x xs h.1
+
+theorem insertByScore_map {α β : Type} (f : α → β) (key : β → Int) (x : α) (l : List α) :
+    (insertByScore (fun a => key (f a)) x l).map f = insertByScore key (f x) (l.map f) := by
+  induction l with
+  | nil => rfl
+  | cons y ys ih =>
+    simp only [insertByScore, List.map_cons]
+    split
+    · rfl
+    · rw [List.map_cons, ih]
+
+/-- sorting commutes with a map that preserves the key -/
+theorem sortByScore_map {α β : Type} (f : α → β) (key : β → Int) (l : List α) :
+    (sortByScore (fun a => key (f a)) l).map f = sortByScore key (l.map f) := by
+  induction l with
+  | nil => rfl
+  | cons x xs ih =>
+    rw [sortByScore_cons, List.map_cons, sortByScore_cons, insertByScore_map, ih]
+
+/-- the sort is stable: the two entries with score 50 keep their order, the entry with score 10 moves to the front -/
+example : sortByScore (·.2) [("a", (50 : Int)), ("b", 10), ("c", 50), ("d", 70), ("e", 10)] =
+    [("b", 10), ("e", 10), ("a", 50), ("c", 50), ("d", 70)] := by decide
+
+theorem finishBatch_length (got : List (Probe × Int)) : (finishBatch got).length = got.length := by
+  unfold finishBatch
+  rw [List.length_map, sortByScore_length]
+
+/-- the returned batch is a rearrangement of the fetched payloads -/
+theorem finishBatch_perm (got : List (Probe × Int)) : (finishBatch got).Perm (got.map (·.1)) :=
+  (sortByScore_perm _ got).map _
+
+/-- fetched in score order ⇒ returned in fetch order -/
+theorem finishBatch_of_sorted (got : List (Probe × Int)) (h : got.Pairwise fun a b => a.2 ≤ b.2) :
+    finishBatch got = got.map (·.1) := by
+  unfold finishBatch
+  rw [sortByScore_of_sorted _ got h]
 
 /-! ## `popBatch` -/
 namespace RStore
@@ -217,7 +362,7 @@ def QSys.popDelta (s : QSys) (i : Nat) : List GPop :=
   match s.cur i with
   | some c =>
     match c.pc with
-    | .popExec _ _ ids => s.popRecs i ids
+    | .popExec _ _ ids _ => s.popRecs i ids
     | _ => []
   | none => []
 
@@ -329,7 +474,7 @@ def QClient.cmdClock (c : QClient) (clock : Int) : Int :=
   | _ => c.arrival
 
 def QClient.before (c : QClient) : List Nat :=
-  match c.pc with | .popExec _ _ ids => ids | _ => []
+  match c.pc with | .popExec _ _ ids _ => ids | _ => []
 
 theorem QSys.stepClient_none {s : QSys} {i : Nat} (b : Bool) (h : s.cur i = none) : s.stepClient i b = (s, none) := by
   unfold QSys.cur at h
@@ -394,21 +539,54 @@ theorem okFor_begin (op : QOp) : okFor op op.begin := by
   | _ => simp [QOp.begin, okFor]
 
 /-- the pc after a pop batch that returned `items` (nils skipped) at clock `clock` -/
-def popNext (n : Int) (got : List Probe) (expired : Nat) (items : List (Probe × GoTime)) (clock : Int) : QPC :=
-  if items.isEmpty then .done (.probes got expired)
+def popNext (n : Int) (got : List (Probe × Int)) (expired : Nat) (items : List ((Probe × GoTime) × Int)) (clock : Int) : QPC :=
+  if items.isEmpty then .done (.probes (finishBatch got) expired)
   else
-    let kept := items.filter fun pe => !expiredAt pe.2 clock
-    if (got ++ kept.map (·.1)).length < n.toNat then .popRange (got ++ kept.map (·.1)) (expired + (items.length - kept.length))
-    else .done (.probes (got ++ kept.map (·.1)) (expired + (items.length - kept.length)))
+    let kept := items.filter fun it => !expiredAt it.1.2 clock
+    if (got ++ kept.map fun it => (it.1.1, it.2)).length < n.toNat then
+      .popRange (got ++ kept.map fun it => (it.1.1, it.2)) (expired + (items.length - kept.length))
+    else .done (.probes (finishBatch (got ++ kept.map fun it => (it.1.1, it.2))) (expired + (items.length - kept.length)))
 
-theorem qstep_popExec (st : RStore) (clock : Int) (fresh : Nat) (n : Int) (got : List Probe) (e : Nat) (ids : List Nat) :
-    (qstep st clock fresh (.popMany n) (.popExec got e ids)).1 = (st.popBatch ids).1 ∧
-    (qstep st clock fresh (.popMany n) (.popExec got e ids)).2.1 = popNext n got e (ids.filterMap fun id => st.pItems[id]?) clock ∧
-    (qstep st clock fresh (.popMany n) (.popExec got e ids)).2.2.1 = false := by
-  have hv : (st.popBatch ids).2.filterMap id = ids.filterMap fun id => st.pItems[id]? := by
-    rw [RStore.popBatch_vals, List.filterMap_map]; rfl
+/-- the items a pop batch yields for the `WITHSCORES` reply `ids` / `scs`: the payloads `HMGET` still finds (nils
+skipped), each with the score at the same position of the reply -/
+def popItemsS (st : RStore) (ids : List Nat) (scs : List Int) : List ((Probe × GoTime) × Int) :=
+  (ids.zip scs).filterMap fun p => (st.pItems[p.1]?).map fun pe => (pe, p.2)
+
+theorem popItemsS_cons (st : RStore) (id : Nat) (ids : List Nat) (sc : Int) (scs : List Int) :
+    popItemsS st (id :: ids) (sc :: scs) =
+      (match st.pItems[id]? with | some pe => [(pe, sc)] | none => []) ++ popItemsS st ids scs := by
+  unfold popItemsS
+  rw [List.zip_cons_cons, List.filterMap_cons]
+  cases st.pItems[id]? <;> rfl
+
+/-- without the scores these are the payloads of the batch -/
+theorem popItemsS_fst (st : RStore) (ids : List Nat) (scs : List Int) (hlen : scs.length = ids.length) :
+    (popItemsS st ids scs).map (·.1) = ids.filterMap fun id => st.pItems[id]? := by
+  induction ids generalizing scs with
+  | nil => cases scs <;> rfl
+  | cons id ids ih =>
+    cases scs with
+    | nil => cases hlen
+    | cons sc scs =>
+      rw [popItemsS_cons, List.map_append, ih scs (by simpa using hlen), List.filterMap_cons]
+      cases st.pItems[id]? <;> rfl
+
+theorem popItemsS_counts (st : RStore) (ids : List Nat) (scs : List Int) (clock : Int) (hlen : scs.length = ids.length) :
+    (popItemsS st ids scs).length = (ids.filterMap fun id => st.pItems[id]?).length ∧
+    ((popItemsS st ids scs).filter fun it => !expiredAt it.1.2 clock).length =
+      ((ids.filterMap fun id => st.pItems[id]?).filter fun pe => !expiredAt pe.2 clock).length := by
+  rw [← popItemsS_fst st ids scs hlen, List.length_map, List.filter_map, List.length_map]
+  exact ⟨rfl, rfl⟩
+
+theorem qstep_popExec (st : RStore) (clock : Int) (fresh : Nat) (n : Int) (got : List (Probe × Int)) (e : Nat) (ids : List Nat)
+    (scs : List Int) :
+    (qstep st clock fresh (.popMany n) (.popExec got e ids scs)).1 = (st.popBatch ids).1 ∧
+    (qstep st clock fresh (.popMany n) (.popExec got e ids scs)).2.1 = popNext n got e (popItemsS st ids scs) clock ∧
+    (qstep st clock fresh (.popMany n) (.popExec got e ids scs)).2.2.1 = false := by
+  have hv : ((st.popBatch ids).2.zip scs).filterMap (fun vs => vs.1.map fun pe => (pe, vs.2)) = popItemsS st ids scs := by
+    rw [RStore.popBatch_vals, List.zip_map_left, List.filterMap_map]; rfl
   simp only [qstep, hv]
-  generalize (ids.filterMap fun id => st.pItems[id]?) = items
+  generalize popItemsS st ids scs = items
   unfold popNext
   by_cases h1 : items.isEmpty = true
   · simp only [h1, if_true, and_self]
@@ -417,13 +595,14 @@ theorem qstep_popExec (st : RStore) (clock : Int) (fresh : Nat) (n : Int) (got :
     · rename_i h2; exact ⟨rfl, (if_pos h2).symm, rfl⟩
     · rename_i h2; exact ⟨rfl, (if_neg h2).symm, rfl⟩
 
-theorem qstep_popRange (st : RStore) (clock : Int) (fresh : Nat) (n : Int) (got : List Probe) (e : Nat) :
+theorem qstep_popRange (st : RStore) (clock : Int) (fresh : Nat) (n : Int) (got : List (Probe × Int)) (e : Nat) :
     (qstep st clock fresh (.popMany n) (.popRange got e)).1 = st ∧
     (qstep st clock fresh (.popMany n) (.popRange got e)).2.1 =
-      (if (zrangeUpTo st.pQueue (some clock) (some (n - got.length).toNat)).isEmpty then .done (.probes got e)
-       else .popExec got e (zrangeUpTo st.pQueue (some clock) (some (n - got.length).toNat))) ∧
+      (if (zrangeUpTo st.pQueue (some clock) (some (n - got.length).toNat)).isEmpty then .done (.probes (finishBatch got) e)
+       else .popExec got e (zrangeUpTo st.pQueue (some clock) (some (n - got.length).toNat))
+              ((zrangeUpToS st.pQueue (some clock) (some (n - got.length).toNat)).map (·.2))) ∧
     (qstep st clock fresh (.popMany n) (.popRange got e)).2.2.1 = false := by
-  simp only [qstep]
+  simp only [qstep, zrangeUpToS_isEmpty, zrangeUpToS_ids]
   split <;> exact ⟨rfl, rfl, rfl⟩
 
 /-- what one non-tick event does to a ghost state: six shapes -/
@@ -437,7 +616,7 @@ inductive GStep (g : GSys) : GSys → Prop where
   | other (i : Nat) (c c' : QClient) (st' : RStore) (h : g.sys.cur i = some c) (hnp : ∀ n, c.op ≠ .popMany n)
       (hI : st'.pItems = g.sys.store.pItems) (hQ : st'.pQueue = g.sys.store.pQueue)
       (hcons : RStore.Consistent g.sys.store → RStore.Consistent st')
-      (hop : c'.op = c.op) (hpc1 : ∀ x y, c'.pc ≠ .popRange x y) (hpc2 : ∀ x y z, c'.pc ≠ .popExec x y z)
+      (hop : c'.op = c.op) (hpc1 : ∀ x y, c'.pc ≠ .popRange x y) (hpc2 : ∀ x y z w, c'.pc ≠ .popExec x y z w)
       (hst : c'.started = true) (harr : c'.arrival = g.sys.clock) (hpop : c'.popped = c.popped) :
       GStep g { g with sys := { g.sys with store := st', clients := g.sys.clients.set i c' } }
   /-- the `HSET+ZADD` batch of an accepted enqueue -/
@@ -453,18 +632,21 @@ inductive GStep (g : GSys) : GSys → Prop where
           enqs := g.enqs ++ [⟨g.sys.fresh, i, p, before, (readyOf after c.arrival), g.sys.clock⟩]
           pops := g.pops }
   /-- the `ZRANGEBYSCORE` of a `PopMany` round -/
-  | range (i : Nat) (c c' : QClient) (n : Int) (got : List Probe) (e : Nat) (h : g.sys.cur i = some c)
+  | range (i : Nat) (c c' : QClient) (n : Int) (got : List (Probe × Int)) (e : Nat) (h : g.sys.cur i = some c)
       (hcop : c.op = .popMany n) (hcpc : c.pc = .popRange got e)
       (hop : c'.op = c.op)
-      (hpc : c'.pc = (if (zrangeUpTo g.sys.store.pQueue (some c.arrival) (some (n - got.length).toNat)).isEmpty then .done (.probes got e)
-                      else .popExec got e (zrangeUpTo g.sys.store.pQueue (some c.arrival) (some (n - got.length).toNat))))
+      (hpc : c'.pc = (if (zrangeUpTo g.sys.store.pQueue (some c.arrival) (some (n - got.length).toNat)).isEmpty then
+                        .done (.probes (finishBatch got) e)
+                      else .popExec got e (zrangeUpTo g.sys.store.pQueue (some c.arrival) (some (n - got.length).toNat))
+                             ((zrangeUpToS g.sys.store.pQueue (some c.arrival) (some (n - got.length).toNat)).map (·.2))))
       (hst : c'.started = true) (harr : c'.arrival = g.sys.clock) (hpop : c'.popped = c.popped) :
       GStep g { g with sys := { g.sys with clients := g.sys.clients.set i c' } }
   /-- the `ZREM+HMGET+HDEL` batch of a `PopMany` round -/
-  | exec (i : Nat) (c c' : QClient) (n : Int) (got : List Probe) (e : Nat) (ids : List Nat) (h : g.sys.cur i = some c)
-      (hcop : c.op = .popMany n) (hcpc : c.pc = .popExec got e ids)
+  | exec (i : Nat) (c c' : QClient) (n : Int) (got : List (Probe × Int)) (e : Nat) (ids : List Nat) (scs : List Int)
+      (h : g.sys.cur i = some c)
+      (hcop : c.op = .popMany n) (hcpc : c.pc = .popExec got e ids scs)
       (hop : c'.op = c.op)
-      (hpc : c'.pc = popNext n got e (ids.filterMap fun id => g.sys.store.pItems[id]?) g.sys.clock)
+      (hpc : c'.pc = popNext n got e (popItemsS g.sys.store ids scs) g.sys.clock)
       (hst : c'.started = true) (harr : c'.arrival = g.sys.clock)
       (hpop : c'.popped = c.popped ++ ids.filterMap fun id => g.sys.store.pItems[id]?) :
       GStep g
@@ -529,7 +711,7 @@ theorem gstep_stepClient (g : GSys) (i : Nat) (b : Bool)
             rfl
           rw [this]
           exact .other i _ _ _ hcur (by intro n h; cases h) rfl rfl (fun h => RStore.insAddBatch_consistent h _ _ _) rfl
-            (by intro x y h; cases h) (by intro x y z h; cases h) rfl rfl rfl
+            (by intro x y h; cases h) (by intro x y z w h; cases h) rfl rfl rfl
         | insRemove id =>
           have : (g.stepClient i b).1 =
             { g with sys := { g.sys with store := g.sys.store.insRemoveBatch id, clients := g.sys.clients.set i { op := .insRemove id, pc := .done .unit, started := true, dead := b, arrival := g.sys.clock, popped := popped } } } := by
@@ -538,7 +720,7 @@ theorem gstep_stepClient (g : GSys) (i : Nat) (b : Bool)
             rfl
           rw [this]
           exact .other i _ _ _ hcur (by intro n h; cases h) rfl rfl (fun h => RStore.insRemoveBatch_consistent h _) rfl
-            (by intro x y h; cases h) (by intro x y z h; cases h) rfl rfl rfl
+            (by intro x y h; cases h) (by intro x y z w h; cases h) rfl rfl rfl
         | insClear before =>
           have : (g.stepClient i b).1 =
             { g with sys := { g.sys with store := g.sys.store, clients := g.sys.clients.set i { op := .insClear before, pc := (qstep g.sys.store arrival g.sys.fresh (.insClear before) .start).2.1, started := true, dead := b, arrival := g.sys.clock, popped := popped } } } := by
@@ -549,7 +731,7 @@ theorem gstep_stepClient (g : GSys) (i : Nat) (b : Bool)
           rw [this]
           refine .other i _ _ _ hcur (by intro n h; cases h) rfl rfl (fun h => h) rfl ?_ ?_ rfl rfl rfl
           · intro x y; simp only [qstep]; split <;> (intro h; cases h)
-          · intro x y z; simp only [qstep]; split <;> (intro h; cases h)
+          · intro x y z w; simp only [qstep]; split <;> (intro h; cases h)
       | clearExec ids =>
         have hnp : ∀ n, op ≠ .popMany n := by
           intro n h; subst h; exact absurd hok (by simp [okFor])
@@ -563,7 +745,7 @@ theorem gstep_stepClient (g : GSys) (i : Nat) (b : Bool)
         rw [this]
         exact .other i _ _ _ hcur hnp (RStore.insClearBatch_pItems _ _) (RStore.insClearBatch_pQueue _ _)
           (fun h => RStore.insClearBatch_consistent h _) rfl
-          (by intro x y h; cases h) (by intro x y z h; cases h) rfl rfl rfl
+          (by intro x y h; cases h) (by intro x y z w h; cases h) rfl rfl rfl
       | popRange got e =>
         cases op with
         | popMany n =>
@@ -576,19 +758,19 @@ theorem gstep_stepClient (g : GSys) (i : Nat) (b : Bool)
           rw [this]
           exact .range i _ _ n got e hcur rfl rfl rfl q2 rfl rfl rfl
         | _ => exact absurd hok (by simp [okFor])
-      | popExec got e ids =>
+      | popExec got e ids scs =>
         cases op with
         | popMany n =>
-          obtain ⟨q1, q2, q3⟩ := qstep_popExec g.sys.store g.sys.clock g.sys.fresh n got e ids
+          obtain ⟨q1, q2, q3⟩ := qstep_popExec g.sys.store g.sys.clock g.sys.fresh n got e ids scs
           have : (g.stepClient i b).1 =
-              { sys := { g.sys with store := (g.sys.store.popBatch ids).1, clients := g.sys.clients.set i { op := .popMany n, pc := (qstep g.sys.store g.sys.clock g.sys.fresh (.popMany n) (.popExec got e ids)).2.1, started := true, dead := b, arrival := g.sys.clock, popped := popped ++ ids.filterMap fun id => g.sys.store.pItems[id]? } }
+              { sys := { g.sys with store := (g.sys.store.popBatch ids).1, clients := g.sys.clients.set i { op := .popMany n, pc := (qstep g.sys.store g.sys.clock g.sys.fresh (.popMany n) (.popExec got e ids scs)).2.1, started := true, dead := b, arrival := g.sys.clock, popped := popped ++ ids.filterMap fun id => g.sys.store.pItems[id]? } }
                 enqs := g.enqs
                 pops := g.pops ++ g.sys.popRecs i ids } := by
             simp only [GSys.stepClient, h1, QSys.enqDelta, QSys.popDelta, hcur, List.append_nil, QClient.cmdClock,
               QClient.before, q1, q3]
             rfl
           rw [this]
-          exact .exec i _ _ n got e ids hcur rfl rfl rfl q2 rfl rfl rfl
+          exact .exec i _ _ n got e ids scs hcur rfl rfl rfl q2 rfl rfl rfl
         | _ => exact absurd hok (by simp [okFor])
     · have hl' : c.pc.live = false := by simpa using hl
       have : (g.stepClient i b).1 = { g with sys := { g.sys with clients := g.sys.clients.set i c } } := by
@@ -686,6 +868,17 @@ def expOf (i : Nat) (pops : List GPop) : Nat :=
 def poppedOf (i : Nat) (pops : List GPop) : List (Probe × GoTime) :=
   (pops.filter fun d => d.client == i).map fun d => (d.probe, d.expires)
 
+/-- the same with the score each entry had in `probes:queue` when it was popped: the items consumer `i` holds, in fetch order -/
+def retS (i : Nat) (pops : List GPop) : List (Probe × Int) :=
+  (pops.filter fun d => d.client == i && d.returned).map fun d => (d.probe, d.ready.getD 0)
+
+theorem retS_fst (i : Nat) (pops : List GPop) : (retS i pops).map (·.1) = retOf i pops := by
+  unfold retS retOf
+  rw [List.map_map]; rfl
+
+theorem retS_append (i : Nat) (a b : List GPop) : retS i (a ++ b) = retS i a ++ retS i b := by
+  simp [retS]
+
 theorem retOf_append (i : Nat) (a b : List GPop) : retOf i (a ++ b) = retOf i a ++ retOf i b := by
   simp [retOf]
 theorem expOf_append (i : Nat) (a b : List GPop) : expOf i (a ++ b) = expOf i a + expOf i b := by
@@ -701,6 +894,8 @@ theorem filter_client_eq_nil {j : Nat} {l : List GPop} (h : ∀ d ∈ l, d.clien
 
 theorem retOf_other {j : Nat} {l : List GPop} (h : ∀ d ∈ l, d.client ≠ j) : retOf j l = [] := by
   unfold retOf; rw [filter_client_eq_nil h]; rfl
+theorem retS_other {j : Nat} {l : List GPop} (h : ∀ d ∈ l, d.client ≠ j) : retS j l = [] := by
+  unfold retS; rw [filter_client_eq_nil h]; rfl
 theorem expOf_other {j : Nat} {l : List GPop} (h : ∀ d ∈ l, d.client ≠ j) : expOf j l = 0 := by
   unfold expOf; rw [filter_client_eq_nil h]; rfl
 theorem poppedOf_other {j : Nat} {l : List GPop} (h : ∀ d ∈ l, d.client ≠ j) : poppedOf j l = [] := by
@@ -774,21 +969,46 @@ theorem expOf_popRecs (s : QSys) (i : Nat) (ids : List Nat) :
       simp only [expOf, List.filter_cons]
       cases expiredAt pe.2 s.clock <;> simp <;> omega
 
+/-- the scored items of a pop batch, provided the scores of the `WITHSCORES` reply are still the scores of the entries
+the batch finds -/
+theorem retS_popRecs (s : QSys) (i : Nat) (ids : List Nat) (scs : List Int) (hlen : scs.length = ids.length)
+    (hsc : ∀ p ∈ ids.zip scs, ∀ pe, s.store.pItems[p.1]? = some pe → s.store.pQueue[p.1]? = some p.2) :
+    retS i (s.popRecs i ids) =
+      ((popItemsS s.store ids scs).filter fun it => !expiredAt it.1.2 s.clock).map fun it => (it.1.1, it.2) := by
+  induction ids generalizing scs with
+  | nil => cases scs <;> rfl
+  | cons id ids ih =>
+    cases scs with
+    | nil => cases hlen
+    | cons sc scs =>
+      have ih' := ih scs (by simpa using hlen) (fun p hp => hsc p (by rw [List.zip_cons_cons]; exact List.mem_cons_of_mem _ hp))
+      have h0 := hsc (id, sc) (by rw [List.zip_cons_cons]; exact List.mem_cons_self)
+      rw [popRecs_cons, retS_append, ih', popItemsS_cons, List.filter_append, List.map_append]
+      congr 1
+      cases hpe : s.store.pItems[id]? with
+      | none => rfl
+      | some pe =>
+        have hq := h0 pe hpe
+        simp only at hq
+        simp only [retS, List.filter_cons, hq]
+        cases expiredAt pe.2 s.clock <;> simp
+
 /-! ## the invariant -/
 
 /-- the pc of a started call agrees with the ghost log: a `PopMany n` call holds exactly the probes the log says it
-was handed, has counted exactly the expired ones, and never exceeds `n`; other calls are never at a pop pc -/
-def PcOK (op : QOp) (pc : QPC) (ret : List Probe) (exp : Nat) : Prop :=
+was handed (in fetch order, with their scores; when done: stably sorted by score, scores dropped), has counted exactly the
+expired ones, and never exceeds `n`; other calls are never at a pop pc -/
+def PcOK (op : QOp) (pc : QPC) (ret : List (Probe × Int)) (exp : Nat) : Prop :=
   match op with
   | .popMany n =>
     (match pc with
      | .popRange got e => got = ret ∧ e = exp ∧ got.length < n.toNat
-     | .popExec got e ids => got = ret ∧ e = exp ∧ ids.Nodup ∧ got.length + ids.length ≤ n.toNat
-     | .done (.probes got e) => got = ret ∧ e = exp ∧ got.length ≤ n.toNat
+     | .popExec got e ids scs => got = ret ∧ e = exp ∧ ids.Nodup ∧ got.length + ids.length ≤ n.toNat ∧ scs.length = ids.length
+     | .done (.probes ps e) => ps = finishBatch ret ∧ e = exp ∧ ps.length ≤ n.toNat
      | _ => False)
   | _ => (match pc with | .popRange .. => False | .popExec .. => False | _ => True)
 
-theorem PcOK.okFor {op : QOp} {pc : QPC} {ret : List Probe} {exp : Nat} (h : PcOK op pc ret exp) : okFor op pc := by
+theorem PcOK.okFor {op : QOp} {pc : QPC} {ret : List (Probe × Int)} {exp : Nat} (h : PcOK op pc ret exp) : okFor op pc := by
   cases op with
   | popMany n =>
     cases pc with
@@ -804,7 +1024,7 @@ theorem PcOK_begin (op : QOp) : PcOK op op.begin [] 0 := by
   | popMany n =>
     simp only [QOp.begin]
     split
-    · simp [PcOK]
+    · simp [PcOK, finishBatch, sortByScore]
     · simp only [PcOK, List.length_nil, true_and]; omega
   | _ => simp [QOp.begin, PcOK]
 
@@ -812,7 +1032,7 @@ theorem PcOK_begin (op : QOp) : PcOK op op.begin [] 0 := by
 structure CInv (pops : List GPop) (i : Nat) (c : QClient) : Prop where
   popped : c.popped = poppedOf i pops
   unstarted : c.started = false → ∀ d ∈ pops, d.client ≠ i
-  pc : c.started = true → PcOK c.op c.pc (retOf i pops) (expOf i pops)
+  pc : c.started = true → PcOK c.op c.pc (retS i pops) (expOf i pops)
 
 theorem CInv.start {pops : List GPop} {i : Nat} {c : QClient} (h : CInv pops i c) (clock : Int) :
     CInv pops i (c.start clock) := by
@@ -823,7 +1043,7 @@ theorem CInv.start {pops : List GPop} {i : Nat} {c : QClient} (h : CInv pops i c
     simp only [hs']
     refine ⟨h.popped, fun h' => (by cases h'), fun _ => ?_⟩
     have := h.unstarted hs'
-    simp only [retOf_other this, expOf_other this]
+    simp only [retS_other this, expOf_other this]
     exact PcOK_begin c.op
 
 /-- another client's command appends only records of that client -/
@@ -837,8 +1057,41 @@ theorem CInv.frame {pops new : List GPop} {i j : Nat} {c : QClient} (h : CInv po
     · exact h.unstarted hs d hd
     · exact hn d hd
   · intro hs
-    rw [retOf_append, retOf_other hn, List.append_nil, expOf_append, expOf_other hn, Nat.add_zero]
+    rw [retS_append, retS_other hn, List.append_nil, expOf_append, expOf_other hn, Nat.add_zero]
     exact h.pc hs
+
+/-- between a `ZRANGEBYSCORE … WITHSCORES` and its pop batch a consumer holds old ids, and the score it holds for an id is
+the id's score in `probes:queue` for as long as the id is queued (an id is enqueued once, its score never changes) -/
+def ScOK (pQ : ExtTreeMap Nat Int) (fresh : Nat) (c : QClient) : Prop :=
+  c.started = true → ∀ got e ids scs, c.pc = .popExec got e ids scs →
+    ∀ p ∈ ids.zip scs, p.1 < fresh ∧ ∀ r, pQ[p.1]? = some r → r = p.2
+
+theorem ScOK.mono {pQ pQ' : ExtTreeMap Nat Int} {fresh fresh' : Nat} {c : QClient}
+    (h : ScOK pQ fresh c) (hQ : ∀ (id : Nat) (r : Int), id < fresh → pQ'[id]? = some r → pQ[id]? = some r)
+    (hf : fresh ≤ fresh') : ScOK pQ' fresh' c := by
+  intro hs got e ids scs hpc p hp
+  obtain ⟨h1, h2⟩ := h hs got e ids scs hpc p hp
+  exact ⟨Nat.lt_of_lt_of_le h1 hf, fun r hr => h2 r (hQ p.1 r h1 hr)⟩
+
+theorem ScOK.ofNoExec {pQ : ExtTreeMap Nat Int} {fresh : Nat} {c : QClient}
+    (hpc : ∀ x y z w, c.pc ≠ .popExec x y z w) : ScOK pQ fresh c :=
+  fun _ got e ids scs h => absurd h (hpc got e ids scs)
+
+theorem QOp.begin_ne_popExec (op : QOp) (got : List (Probe × Int)) (e : Nat) (ids : List Nat) (scs : List Int) :
+    op.begin ≠ .popExec got e ids scs := by
+  cases op with
+  | enqueue p a b => cases a <;> cases b <;> simp only [QOp.begin] <;> (try split) <;> simp
+  | popMany n => simp only [QOp.begin]; split <;> simp
+  | _ => simp [QOp.begin]
+
+theorem ScOK.start {pQ : ExtTreeMap Nat Int} {fresh : Nat} {c : QClient} (h : ScOK pQ fresh c) (clock : Int) :
+    ScOK pQ fresh (c.start clock) := by
+  unfold QClient.start
+  by_cases hs : c.started = true
+  · simp only [hs, if_true]; exact h
+  · simp only [hs]
+    intro _ got e ids scs hpc
+    exact absurd hpc (QOp.begin_ne_popExec _ _ _ _ _)
 
 /-- **the invariant of the ghost system** (no assumption on ticks) -/
 structure GInv (g : GSys) : Prop where
@@ -854,6 +1107,28 @@ structure GInv (g : GSys) : Prop where
   popSrc : ∀ d ∈ g.pops, ∃ e ∈ g.enqs, e.id = d.id ∧ e.probe = d.probe ∧ e.expires = d.expires ∧ d.ready = some e.ready
   popRet : ∀ d ∈ g.pops, d.returned = !expiredAt d.expires d.clk
   clients : ∀ (i : Nat) (c : QClient), g.sys.clients[i]? = some c → CInv g.pops i c
+  scores : ∀ (i : Nat) (c : QClient), g.sys.clients[i]? = some c → ScOK g.sys.store.pQueue g.sys.fresh c
+
+theorem GInv.curSc {g : GSys} (h : GInv g) {i : Nat} {c : QClient} (hc : g.sys.cur i = some c) :
+    ScOK g.sys.store.pQueue g.sys.fresh c := by
+  obtain ⟨c0, h0, _, rfl⟩ := QSys.cur_some hc
+  exact (h.scores i c0 h0).start _
+
+/-- the `scores` part after client `i` was replaced by `c'`; the new score map agrees with the old one on old ids it still has -/
+theorem sclients_set {g : GSys} (h : GInv g) {i : Nat} {c' : QClient} {pQ' : ExtTreeMap Nat Int} {fresh' : Nat}
+    (hQ : ∀ (id : Nat) (r : Int), id < g.sys.fresh → pQ'[id]? = some r → g.sys.store.pQueue[id]? = some r)
+    (hf : g.sys.fresh ≤ fresh') (hc' : ScOK pQ' fresh' c') :
+    ∀ (j : Nat) (cj : QClient), (g.sys.clients.set i c')[j]? = some cj → ScOK pQ' fresh' cj := by
+  intro j cj hj
+  rw [List.getElem?_set] at hj
+  by_cases hij : i = j
+  · subst hij
+    simp only [if_true] at hj
+    split at hj
+    · cases hj; exact hc'
+    · cases hj
+  · simp only [hij, if_false] at hj
+    exact (h.scores j cj hj).mono hQ hf
 
 theorem GInv.cur {g : GSys} (h : GInv g) {i : Nat} {c : QClient} (hc : g.sys.cur i = some c) : CInv g.pops i c := by
   obtain ⟨c0, h0, _, rfl⟩ := QSys.cur_some hc
@@ -885,18 +1160,18 @@ theorem GInv.popLt {g : GSys} (h : GInv g) {id : Nat} (hid : id ∈ g.pops.map (
 theorem GInv.queueLt {g : GSys} (h : GInv g) {id : Nat} (hid : id ∈ g.sys.store.pQueue) : id < g.sys.fresh :=
   h.lt id ((h.cons.prb id).1 hid)
 
-theorem PcOK_other {op : QOp} {pc : QPC} (ret : List Probe) (exp : Nat) (hnp : ∀ n, op ≠ .popMany n)
-    (h1 : ∀ x y, pc ≠ .popRange x y) (h2 : ∀ x y z, pc ≠ .popExec x y z) : PcOK op pc ret exp := by
+theorem PcOK_other {op : QOp} {pc : QPC} (ret : List (Probe × Int)) (exp : Nat) (hnp : ∀ n, op ≠ .popMany n)
+    (h1 : ∀ x y, pc ≠ .popRange x y) (h2 : ∀ x y z w, pc ≠ .popExec x y z w) : PcOK op pc ret exp := by
   cases op with
   | popMany n => exact absurd rfl (hnp n)
   | _ =>
     cases pc with
     | popRange x y => exact absurd rfl (h1 x y)
-    | popExec x y z => exact absurd rfl (h2 x y z)
+    | popExec x y z w => exact absurd rfl (h2 x y z w)
     | _ => trivial
 
 theorem CInv.ofStarted {pops : List GPop} {i : Nat} {c : QClient} (hst : c.started = true)
-    (hpop : c.popped = poppedOf i pops) (hpc : PcOK c.op c.pc (retOf i pops) (expOf i pops)) : CInv pops i c :=
+    (hpop : c.popped = poppedOf i pops) (hpc : PcOK c.op c.pc (retS i pops) (expOf i pops)) : CInv pops i c :=
   ⟨hpop, fun hs => (by rw [hst] at hs; cases hs), fun _ => hpc⟩
 
 /-- the clients part when the log does not change -/
@@ -908,19 +1183,23 @@ theorem clients_set0 {g : GSys} (h : GInv g) {i : Nat} {c' : QClient} (hc' : CIn
 theorem GInv.step_setc {g : GSys} (h : GInv g) (i : Nat) (c c' : QClient) (hc : g.sys.cur i = some c) (hop : c'.op = c.op)
     (hpc : c'.pc = c.pc) (hst : c'.started = true) (hpop : c'.popped = c.popped) :
     GInv { g with sys := { g.sys with clients := g.sys.clients.set i c' } } := by
-  refine ⟨h.cons, h.lt, h.enqLt, h.enqInc, h.cover, h.popNodup, h.popOut, h.src, h.popSrc, h.popRet, ?_⟩
-  have hci := h.cur hc
-  exact clients_set0 h (CInv.ofStarted hst (by rw [hpop]; exact hci.popped)
-    (by rw [hop, hpc]; exact hci.pc (QSys.cur_started hc)))
+  refine ⟨h.cons, h.lt, h.enqLt, h.enqInc, h.cover, h.popNodup, h.popOut, h.src, h.popSrc, h.popRet, ?_, ?_⟩
+  · have hci := h.cur hc
+    exact clients_set0 h (CInv.ofStarted hst (by rw [hpop]; exact hci.popped)
+      (by rw [hop, hpc]; exact hci.pc (QSys.cur_started hc)))
+  · refine sclients_set h (fun _ _ _ hr => hr) (Nat.le_refl _) ?_
+    intro _ got e ids scs hpc'
+    rw [hpc] at hpc'
+    exact h.curSc hc (QSys.cur_started hc) got e ids scs hpc'
 
 theorem GInv.step_other {g : GSys} (h : GInv g) (i : Nat) (c c' : QClient) (st' : RStore) (hc : g.sys.cur i = some c)
     (hnp : ∀ n, c.op ≠ .popMany n) (hI : st'.pItems = g.sys.store.pItems) (hQ : st'.pQueue = g.sys.store.pQueue)
     (hcons : Consistent g.sys.store → Consistent st')
-    (hop : c'.op = c.op) (hpc1 : ∀ x y, c'.pc ≠ .popRange x y) (hpc2 : ∀ x y z, c'.pc ≠ .popExec x y z)
+    (hop : c'.op = c.op) (hpc1 : ∀ x y, c'.pc ≠ .popRange x y) (hpc2 : ∀ x y z w, c'.pc ≠ .popExec x y z w)
     (hst : c'.started = true) (hpop : c'.popped = c.popped) :
     GInv { g with sys := { g.sys with store := st', clients := g.sys.clients.set i c' } } := by
   have hci := h.cur hc
-  refine ⟨hcons h.cons, ?_, h.enqLt, h.enqInc, ?_, h.popNodup, ?_, ?_, h.popSrc, h.popRet, ?_⟩
+  refine ⟨hcons h.cons, ?_, h.enqLt, h.enqInc, ?_, h.popNodup, ?_, ?_, h.popSrc, h.popRet, ?_, ?_⟩
   · show ∀ id : Nat, id ∈ st'.pItems → _
     rw [hI]; exact h.lt
   · show ∀ id : Nat, _ ↔ (id ∈ st'.pQueue ∨ _)
@@ -931,24 +1210,41 @@ theorem GInv.step_other {g : GSys} (h : GInv g) (i : Nat) (c c' : QClient) (st' 
     rw [hI, hQ]; exact h.src
   · exact clients_set0 h (CInv.ofStarted hst (by rw [hpop]; exact hci.popped)
       (PcOK_other _ _ (by rw [hop]; exact hnp) hpc1 hpc2))
+  · show ∀ (j : Nat) (cj : QClient), (g.sys.clients.set i c')[j]? = some cj → ScOK st'.pQueue g.sys.fresh cj
+    rw [hQ]
+    exact sclients_set h (fun _ _ _ hr => hr) (Nat.le_refl _) (ScOK.ofNoExec hpc2)
 
-theorem GInv.step_range {g : GSys} (h : GInv g) (i : Nat) (c c' : QClient) (n : Int) (got : List Probe) (e : Nat)
+theorem GInv.step_range {g : GSys} (h : GInv g) (i : Nat) (c c' : QClient) (n : Int) (got : List (Probe × Int)) (e : Nat)
     (hc : g.sys.cur i = some c) (hcop : c.op = .popMany n) (hcpc : c.pc = .popRange got e) (hop : c'.op = c.op)
-    (hpc : c'.pc = (if (zrangeUpTo g.sys.store.pQueue (some c.arrival) (some (n - got.length).toNat)).isEmpty then .done (.probes got e)
-                    else .popExec got e (zrangeUpTo g.sys.store.pQueue (some c.arrival) (some (n - got.length).toNat))))
+    (hpc : c'.pc = (if (zrangeUpTo g.sys.store.pQueue (some c.arrival) (some (n - got.length).toNat)).isEmpty then
+                      .done (.probes (finishBatch got) e)
+                    else .popExec got e (zrangeUpTo g.sys.store.pQueue (some c.arrival) (some (n - got.length).toNat))
+                           ((zrangeUpToS g.sys.store.pQueue (some c.arrival) (some (n - got.length).toNat)).map (·.2))))
     (hst : c'.started = true) (hpop : c'.popped = c.popped) :
     GInv { g with sys := { g.sys with clients := g.sys.clients.set i c' } } := by
-  refine ⟨h.cons, h.lt, h.enqLt, h.enqInc, h.cover, h.popNodup, h.popOut, h.src, h.popSrc, h.popRet, ?_⟩
-  have hci := h.cur hc
-  have hp := hci.pc (QSys.cur_started hc)
-  rw [hcop, hcpc] at hp
-  obtain ⟨h1, h2, h3⟩ := hp
-  refine clients_set0 h (CInv.ofStarted hst (by rw [hpop]; exact hci.popped) ?_)
-  rw [hop, hcop, hpc]
-  have hlen := zrangeUpTo_length_le g.sys.store.pQueue (some c.arrival) (n - got.length).toNat
-  split
-  · exact ⟨h1, h2, by omega⟩
-  · exact ⟨h1, h2, zrangeUpTo_nodup _ _ _, by omega⟩
+  refine ⟨h.cons, h.lt, h.enqLt, h.enqInc, h.cover, h.popNodup, h.popOut, h.src, h.popSrc, h.popRet, ?_, ?_⟩
+  · have hci := h.cur hc
+    have hp := hci.pc (QSys.cur_started hc)
+    rw [hcop, hcpc] at hp
+    obtain ⟨h1, h2, h3⟩ := hp
+    refine clients_set0 h (CInv.ofStarted hst (by rw [hpop]; exact hci.popped) ?_)
+    rw [hop, hcop, hpc]
+    have hlen := zrangeUpTo_length_le g.sys.store.pQueue (some c.arrival) (n - got.length).toNat
+    split
+    · exact ⟨by rw [h1], h2, by rw [finishBatch_length]; omega⟩
+    · refine ⟨h1, h2, zrangeUpTo_nodup _ _ _, by omega, ?_⟩
+      rw [← zrangeUpToS_ids, List.length_map, List.length_map]
+  · refine sclients_set h (fun _ _ _ hr => hr) (Nat.le_refl _) ?_
+    intro _ got' e' ids scs hpc' p hp
+    rw [hpc] at hpc'
+    split at hpc'
+    · cases hpc'
+    · cases hpc'
+      rw [← zrangeUpToS_ids, zip_fst_snd] at hp
+      have hq := mem_zrangeUpToS hp
+      refine ⟨h.queueLt (mem_iff_getElem?_some.2 ⟨_, hq⟩), fun r hr => ?_⟩
+      rw [hq] at hr
+      exact (Option.some.inj hr).symm
 
 theorem GInv.step_enq {g : GSys} (h : GInv g) (i : Nat) (c c' : QClient) (p : Probe) (after before : GoTime)
     (hc : g.sys.cur i = some c) (hcop : c.op = .enqueue p after before)
@@ -961,7 +1257,7 @@ theorem GInv.step_enq {g : GSys} (h : GInv g) (i : Nat) (c c' : QClient) (p : Pr
            pops := g.pops } := by
   have hci := h.cur hc
   have hnq : g.sys.fresh ∉ g.sys.store.pQueue := fun hm => Nat.lt_irrefl _ (h.queueLt hm)
-  refine ⟨enqueueBatch_consistent h.cons _ _ _ _, ?_, ?_, ?_, ?_, h.popNodup, ?_, ?_, ?_, h.popRet, ?_⟩
+  refine ⟨enqueueBatch_consistent h.cons _ _ _ _, ?_, ?_, ?_, ?_, h.popNodup, ?_, ?_, ?_, h.popRet, ?_, ?_⟩
   · intro id hid
     have : g.sys.fresh = id ∨ id ∈ g.sys.store.pItems := by
       have hid' : id ∈ g.sys.store.pItems.insert g.sys.fresh (p, before) := hid
@@ -1019,6 +1315,14 @@ theorem GInv.step_enq {g : GSys} (h : GInv g) (i : Nat) (c c' : QClient) (p : Pr
     exact ⟨e, List.mem_append.2 (Or.inl he), h3⟩
   · exact clients_set0 h (CInv.ofStarted hst (by rw [hpop]; exact hci.popped)
       (by rw [hop, hcop, hpc]; trivial))
+  · show ∀ (j : Nat) (cj : QClient), (g.sys.clients.set i c')[j]? = some cj →
+      ScOK (g.sys.store.pQueue.insert g.sys.fresh ready) (g.sys.fresh + 1) cj
+    refine sclients_set h ?_ (Nat.le_succ _) (ScOK.ofNoExec (by rw [hpc]; intro x y z w hh; cases hh))
+    intro id r hid
+    rw [ExtTreeMap.getElem?_insert]
+    have : ¬ g.sys.fresh = id := by omega
+    simp only [compare_eq_iff_eq, this, if_false]
+    exact fun hh => hh
 
 theorem mem_popBatch_pItems {st : RStore} {ids : List Nat} {id : Nat} :
     id ∈ (st.popBatch ids).1.pItems ↔ id ∉ ids ∧ id ∈ st.pItems := by
@@ -1034,27 +1338,37 @@ theorem mem_popRecs_ids {s : QSys} {i : Nat} {ids : List Nat} {id : Nat} :
     id ∈ (s.popRecs i ids).map (·.id) ↔ id ∈ ids ∧ id ∈ s.store.pItems := by
   rw [popRecs_ids, List.mem_filter, mem_iff_getElem?_some, Option.isSome_iff_exists]
 
-theorem popNext_ok (n : Int) (got : List Probe) (e : Nat) (items : List (Probe × GoTime)) (clock : Int) (k : Nat)
+theorem popNext_ok (n : Int) (got : List (Probe × Int)) (e : Nat) (items : List ((Probe × GoTime) × Int)) (clock : Int) (k : Nat)
     (hlen : got.length + k ≤ n.toNat) (hk : items.length ≤ k) :
     PcOK (.popMany n) (popNext n got e items clock)
-      (got ++ (items.filter fun pe => !expiredAt pe.2 clock).map (·.1))
-      (e + (items.length - (items.filter fun pe => !expiredAt pe.2 clock).length)) := by
+      (got ++ (items.filter fun it => !expiredAt it.1.2 clock).map fun it => (it.1.1, it.2))
+      (e + (items.length - (items.filter fun it => !expiredAt it.1.2 clock).length)) := by
   unfold popNext
-  have hle := List.length_filter_le (fun pe : Probe × GoTime => !expiredAt pe.2 clock) items
+  have hle := List.length_filter_le (fun it : (Probe × GoTime) × Int => !expiredAt it.1.2 clock) items
   split
   · rename_i h
     have : items = [] := by simpa using h
     subst this
-    exact ⟨by simp, by simp, by omega⟩
+    exact ⟨by simp, by simp, by rw [finishBatch_length]; omega⟩
   · simp only
     split
     · rename_i h2; exact ⟨rfl, rfl, h2⟩
     · refine ⟨rfl, rfl, ?_⟩
+      rw [finishBatch_length]
       simp only [List.length_append, List.length_map]; omega
 
-theorem GInv.step_exec {g : GSys} (h : GInv g) (i : Nat) (c c' : QClient) (n : Int) (got : List Probe) (e : Nat) (ids : List Nat)
-    (hc : g.sys.cur i = some c) (hcop : c.op = .popMany n) (hcpc : c.pc = .popExec got e ids) (hop : c'.op = c.op)
-    (hpc : c'.pc = popNext n got e (ids.filterMap fun id => g.sys.store.pItems[id]?) g.sys.clock)
+theorem popNext_ne_popExec (n : Int) (got : List (Probe × Int)) (e : Nat) (items : List ((Probe × GoTime) × Int)) (clock : Int)
+    (got' : List (Probe × Int)) (e' : Nat) (ids : List Nat) (scs : List Int) :
+    popNext n got e items clock ≠ .popExec got' e' ids scs := by
+  unfold popNext
+  split
+  · simp
+  · simp only; split <;> simp
+
+theorem GInv.step_exec {g : GSys} (h : GInv g) (i : Nat) (c c' : QClient) (n : Int) (got : List (Probe × Int)) (e : Nat) (ids : List Nat)
+    (scs : List Int)
+    (hc : g.sys.cur i = some c) (hcop : c.op = .popMany n) (hcpc : c.pc = .popExec got e ids scs) (hop : c'.op = c.op)
+    (hpc : c'.pc = popNext n got e (popItemsS g.sys.store ids scs) g.sys.clock)
     (hst : c'.started = true)
     (hpop : c'.popped = c.popped ++ ids.filterMap fun id => g.sys.store.pItems[id]?) :
     GInv { sys := { g.sys with store := (g.sys.store.popBatch ids).1, clients := g.sys.clients.set i c' }
@@ -1063,8 +1377,12 @@ theorem GInv.step_exec {g : GSys} (h : GInv g) (i : Nat) (c c' : QClient) (n : I
   have hci := h.cur hc
   have hp := hci.pc (QSys.cur_started hc)
   rw [hcop, hcpc] at hp
-  obtain ⟨h1, h2, hnd, hlen⟩ := hp
-  refine ⟨popBatch_consistent h.cons _, ?_, h.enqLt, h.enqInc, ?_, ?_, ?_, ?_, ?_, ?_, ?_⟩
+  obtain ⟨h1, h2, hnd, hlen, hscl⟩ := hp
+  have hsc : ∀ p ∈ ids.zip scs, ∀ pe, g.sys.store.pItems[p.1]? = some pe → g.sys.store.pQueue[p.1]? = some p.2 := by
+    intro p hp pe hpe
+    obtain ⟨r, hr⟩ := mem_iff_getElem?_some.1 ((h.cons.prb p.1).2 (mem_iff_getElem?_some.2 ⟨pe, hpe⟩))
+    rw [hr, (h.curSc hc (QSys.cur_started hc) got e ids scs hcpc p hp).2 r hr]
+  refine ⟨popBatch_consistent h.cons _, ?_, h.enqLt, h.enqInc, ?_, ?_, ?_, ?_, ?_, ?_, ?_, ?_⟩
   · intro id hid
     exact h.lt id (mem_popBatch_pItems.1 hid).2
   · intro id
@@ -1113,8 +1431,17 @@ theorem GInv.step_exec {g : GSys} (h : GInv g) (i : Nat) (c c' : QClient) (n : I
       rfl
   · refine clients_set h (fun d hd => popRecs_client hd) (CInv.ofStarted hst ?_ ?_)
     · rw [hpop, poppedOf_append, poppedOf_popRecs, hci.popped]
-    · rw [hop, hcop, hpc, retOf_append, expOf_append, retOf_popRecs, expOf_popRecs, ← h1, ← h2]
-      exact popNext_ok n got e _ _ ids.length hlen (List.length_filterMap_le _ _)
+    · obtain ⟨hc1, hc2⟩ := popItemsS_counts g.sys.store ids scs g.sys.clock hscl
+      rw [hop, hcop, hpc, retS_append, expOf_append, retS_popRecs _ _ _ scs hscl hsc, expOf_popRecs, ← h1, ← h2, ← hc1, ← hc2]
+      exact popNext_ok n got e _ _ ids.length hlen (by rw [hc1]; exact List.length_filterMap_le _ _)
+  · show ∀ (j : Nat) (cj : QClient), (g.sys.clients.set i c')[j]? = some cj →
+      ScOK (g.sys.store.popBatch ids).1.pQueue g.sys.fresh cj
+    refine sclients_set h ?_ (Nat.le_refl _) (ScOK.ofNoExec (by rw [hpc]; exact popNext_ne_popExec _ _ _ _ _))
+    intro id r _
+    rw [popBatch_pQueue]
+    split
+    · intro hh; cases hh
+    · exact fun hh => hh
 
 
 theorem GInv.gstep {g g' : GSys} (h : GInv g) (hs : GStep g g') : GInv g' := by
@@ -1127,11 +1454,11 @@ theorem GInv.gstep {g g' : GSys} (h : GInv g) (hs : GStep g g') : GInv g' := by
     exact h.step_enq i c c' p after before hc hcop hop hpc hst hpop _ _
   | range i c c' n got e hc hcop hcpc hop hpc hst harr hpop =>
     exact h.step_range i c c' n got e hc hcop hcpc hop hpc hst hpop
-  | exec i c c' n got e ids hc hcop hcpc hop hpc hst harr hpop =>
-    exact h.step_exec i c c' n got e ids hc hcop hcpc hop hpc hst hpop
+  | exec i c c' n got e ids scs hc hcop hcpc hop hpc hst harr hpop =>
+    exact h.step_exec i c c' n got e ids scs hc hcop hcpc hop hpc hst hpop
 
 theorem GInv.tick {g : GSys} (h : GInv g) (d : Int) : GInv (g.tick d) :=
-  ⟨h.cons, h.lt, h.enqLt, h.enqInc, h.cover, h.popNodup, h.popOut, h.src, h.popSrc, h.popRet, h.clients⟩
+  ⟨h.cons, h.lt, h.enqLt, h.enqInc, h.cover, h.popNodup, h.popOut, h.src, h.popSrc, h.popRet, h.clients, h.scores⟩
 
 /-- `GInv` is inductive: preserved by every event -/
 theorem GInv.step {g : GSys} (h : GInv g) (e : QSysEv) : GInv (g.step e) :=
@@ -1153,7 +1480,7 @@ structure QSys.Init (s : QSys) : Prop where
 theorem GInv.init {s : QSys} (h : s.Init) : GInv (GSys.init s) := by
   have hq : ∀ id : Nat, id ∉ s.store.pQueue := fun id hid => h.empty id ((h.cons.prb id).1 hid)
   refine ⟨h.cons, fun id hid => absurd hid (h.empty id), fun e he => (by cases he), List.Pairwise.nil, ?_, List.Pairwise.nil,
-    fun id hid => (by cases hid), ?_, fun d hd => (by cases hd), fun d hd => (by cases hd), ?_⟩
+    fun id hid => (by cases hid), ?_, fun d hd => (by cases hd), fun d hd => (by cases hd), ?_, ?_⟩
   · intro id
     show id ∈ [] ↔ (id ∈ s.store.pQueue ∨ id ∈ [])
     simp [hq id]
@@ -1164,6 +1491,9 @@ theorem GInv.init {s : QSys} (h : s.Init) : GInv (GSys.init s) := by
     refine ⟨h1, fun _ d hd => (by cases hd), fun hs => ?_⟩
     rw [h2 hs]
     exact PcOK_begin c.op
+  · intro i c hc hs got e ids scs hpc
+    rw [(h.clients c (List.mem_of_getElem? hc)).2 hs] at hpc
+    exact absurd hpc (QOp.begin_ne_popExec _ _ _ _ _)
 
 /-! ## timing invariant (needs a monotone clock) -/
 
@@ -1171,22 +1501,16 @@ theorem GInv.init {s : QSys} (h : s.Init) : GInv (GSys.init s) := by
 ids whose scores (as long as they are still queued) are not in the future -/
 structure TC (pQ : ExtTreeMap Nat Int) (fresh : Nat) (clock : Int) (c : QClient) : Prop where
   arr : c.started = true → c.arrival ≤ clock
-  pend : c.started = true → ∀ got e ids, c.pc = .popExec got e ids →
+  pend : c.started = true → ∀ got e ids scs, c.pc = .popExec got e ids scs →
     ∀ id ∈ ids, id < fresh ∧ ∀ r, pQ[id]? = some r → r ≤ clock
 
 theorem TC.mono {pQ pQ' : ExtTreeMap Nat Int} {fresh fresh' : Nat} {clock clock' : Int} {c : QClient}
     (h : TC pQ fresh clock c) (hQ : ∀ (id : Nat) (r : Int), id < fresh → pQ'[id]? = some r → pQ[id]? = some r)
     (hf : fresh ≤ fresh') (hc : clock ≤ clock') : TC pQ' fresh' clock' c := by
   refine ⟨fun hs => Int.le_trans (h.arr hs) hc, ?_⟩
-  intro hs got e ids hpc id hid
-  obtain ⟨h1, h2⟩ := h.pend hs got e ids hpc id hid
+  intro hs got e ids scs hpc id hid
+  obtain ⟨h1, h2⟩ := h.pend hs got e ids scs hpc id hid
   exact ⟨Nat.lt_of_lt_of_le h1 hf, fun r hr => Int.le_trans (h2 r (hQ id r h1 hr)) hc⟩
-
-theorem QOp.begin_ne_popExec (op : QOp) (got : List Probe) (e : Nat) (ids : List Nat) : op.begin ≠ .popExec got e ids := by
-  cases op with
-  | enqueue p a b => cases a <;> cases b <;> simp only [QOp.begin] <;> (try split) <;> simp
-  | popMany n => simp only [QOp.begin]; split <;> simp
-  | _ => simp [QOp.begin]
 
 theorem TC.start {pQ : ExtTreeMap Nat Int} {fresh : Nat} {clock : Int} {c : QClient}
     (h : TC pQ fresh clock c) : TC pQ fresh clock (c.start clock) := by
@@ -1195,15 +1519,8 @@ theorem TC.start {pQ : ExtTreeMap Nat Int} {fresh : Nat} {clock : Int} {c : QCli
   · simp only [hs, if_true]; exact h
   · simp only [hs]
     refine ⟨fun _ => Int.le_refl _, ?_⟩
-    intro _ got e ids hpc
-    exact absurd hpc (QOp.begin_ne_popExec _ _ _ _)
-
-theorem popNext_ne_popExec (n : Int) (got : List Probe) (e : Nat) (items : List (Probe × GoTime)) (clock : Int)
-    (got' : List Probe) (e' : Nat) (ids : List Nat) : popNext n got e items clock ≠ .popExec got' e' ids := by
-  unfold popNext
-  split
-  · simp
-  · simp only; split <;> simp
+    intro _ got e ids scs hpc
+    exact absurd hpc (QOp.begin_ne_popExec _ _ _ _ _)
 
 /-- **timing invariant** -/
 structure TInv (g : GSys) : Prop where
@@ -1231,8 +1548,8 @@ theorem tclients_set {g : GSys} (h : TInv g) {i : Nat} {c' : QClient} {pQ' : Ext
     exact (h.clients j cj hj).mono hQ hf (Int.le_refl _)
 
 theorem TC.ofNoExec {pQ : ExtTreeMap Nat Int} {fresh : Nat} {clock : Int} {c : QClient}
-    (harr : c.arrival ≤ clock) (hpc : ∀ x y z, c.pc ≠ .popExec x y z) : TC pQ fresh clock c :=
-  ⟨fun _ => harr, fun _ got e ids h => absurd h (hpc got e ids)⟩
+    (harr : c.arrival ≤ clock) (hpc : ∀ x y z w, c.pc ≠ .popExec x y z w) : TC pQ fresh clock c :=
+  ⟨fun _ => harr, fun _ got e ids scs h => absurd h (hpc got e ids scs)⟩
 
 theorem TInv.gstep {g g' : GSys} (hG : GInv g) (h : TInv g) (hs : GStep g g') : TInv g' := by
   cases hs with
@@ -1240,9 +1557,9 @@ theorem TInv.gstep {g g' : GSys} (hG : GInv g) (h : TInv g) (hs : GStep g g') : 
   | setc i c c' hc hop hpc hst harr hpop =>
     refine ⟨?_, h.popT⟩
     have hc0 := h.cur hc
-    refine tclients_set h (fun _ _ _ hr => hr) (Nat.le_refl _) ⟨fun _ => ?_, fun _ got e ids hpc' => ?_⟩
+    refine tclients_set h (fun _ _ _ hr => hr) (Nat.le_refl _) ⟨fun _ => ?_, fun _ got e ids scs hpc' => ?_⟩
     · rw [harr]; exact hc0.arr (QSys.cur_started hc)
-    · rw [hpc] at hpc'; exact hc0.pend (QSys.cur_started hc) got e ids hpc'
+    · rw [hpc] at hpc'; exact hc0.pend (QSys.cur_started hc) got e ids scs hpc'
   | other i c c' st' hc hnp hI hQ hcons hop hpc1 hpc2 hst harr hpop =>
     refine ⟨?_, h.popT⟩
     show ∀ (j : Nat) (cj : QClient), (g.sys.clients.set i c')[j]? = some cj → TC st'.pQueue g.sys.fresh g.sys.clock cj
@@ -1252,7 +1569,7 @@ theorem TInv.gstep {g g' : GSys} (hG : GInv g) (h : TInv g) (hs : GStep g g') : 
     refine ⟨?_, h.popT⟩
     show ∀ (j : Nat) (cj : QClient), (g.sys.clients.set i c')[j]? = some cj →
       TC (g.sys.store.pQueue.insert g.sys.fresh _) (g.sys.fresh + 1) g.sys.clock cj
-    refine tclients_set h ?_ (Nat.le_succ _) (TC.ofNoExec (by rw [harr]; exact Int.le_refl _) (by rw [hpc]; intro x y z hh; cases hh))
+    refine tclients_set h ?_ (Nat.le_succ _) (TC.ofNoExec (by rw [harr]; exact Int.le_refl _) (by rw [hpc]; intro x y z w hh; cases hh))
     intro id r hid
     rw [ExtTreeMap.getElem?_insert]
     have : ¬ g.sys.fresh = id := by omega
@@ -1262,7 +1579,7 @@ theorem TInv.gstep {g g' : GSys} (hG : GInv g) (h : TInv g) (hs : GStep g g') : 
     refine ⟨?_, h.popT⟩
     have hc0 := h.cur hc
     refine tclients_set h (fun _ _ _ hr => hr) (Nat.le_refl _) ⟨fun _ => by rw [harr]; exact Int.le_refl _, ?_⟩
-    intro _ got' e' ids hpc' id hid
+    intro _ got' e' ids scs hpc' id hid
     rw [hpc] at hpc'
     split at hpc'
     · cases hpc'
@@ -1274,7 +1591,7 @@ theorem TInv.gstep {g g' : GSys} (hG : GInv g) (h : TInv g) (hs : GStep g g') : 
       intro r' hr'
       rw [hr] at hr'; cases hr'
       exact Int.le_trans hra hac
-  | exec i c c' n got e ids hc hcop hcpc hop hpc hst harr hpop =>
+  | exec i c c' n got e ids scs hc hcop hcpc hop hpc hst harr hpop =>
     have hc0 := h.cur hc
     refine ⟨?_, ?_⟩
     · show ∀ (j : Nat) (cj : QClient), (g.sys.clients.set i c')[j]? = some cj →
@@ -1291,7 +1608,7 @@ theorem TInv.gstep {g g' : GSys} (hG : GInv g) (h : TInv g) (hs : GStep g g') : 
       · obtain ⟨id, hid, pe, hpe, rfl⟩ := mem_popRecs.1 hd
         have hq : id ∈ g.sys.store.pQueue := (hG.cons.prb id).2 (mem_iff_getElem?_some.2 ⟨pe, hpe⟩)
         obtain ⟨r, hr⟩ := mem_iff_getElem?_some.1 hq
-        exact ⟨r, hr, (hc0.pend (QSys.cur_started hc) got e ids hcpc id hid).2 r hr, Int.le_refl _⟩
+        exact ⟨r, hr, (hc0.pend (QSys.cur_started hc) got e ids scs hcpc id hid).2 r hr, Int.le_refl _⟩
 
 theorem TInv.tick {g : GSys} (h : TInv g) (d : Int) (hd : 0 ≤ d) : TInv (g.tick d) := by
   refine ⟨fun i c hc => (h.clients i c hc).mono (fun _ _ _ hr => hr) (Nat.le_refl _) ?_, ?_⟩
@@ -1315,9 +1632,9 @@ theorem TInv.init {s : QSys} (h : s.Init) (harr : ∀ c ∈ s.clients, c.started
   intro i c hc
   have hm := List.mem_of_getElem? hc
   refine ⟨harr c hm, ?_⟩
-  intro hs got e ids hpc
+  intro hs got e ids scs hpc
   rw [(h.clients c hm).2 hs] at hpc
-  exact absurd hpc (QOp.begin_ne_popExec _ _ _ _)
+  exact absurd hpc (QOp.begin_ne_popExec _ _ _ _ _)
 
 /-! ## the id counter -/
 
@@ -1541,25 +1858,25 @@ about to pop (between a range and its batch) are in order and precede every othe
 structure SInv (g : GSys) (i : Nat) : Prop where
   sorted : (myPops i g.pops).Pairwise PLt
   below : ∀ d ∈ myPops i g.pops, ∀ x, PQLt g.sys.store.pQueue d x
-  pend : ∀ c got e ids, g.sys.clients[i]? = some c → c.started = true → c.pc = .popExec got e ids →
+  pend : ∀ c got e ids scs, g.sys.clients[i]? = some c → c.started = true → c.pc = .popExec got e ids scs →
     ids.Pairwise (QLt g.sys.store.pQueue) ∧ ∀ y ∈ ids, ∀ x, x ∉ ids → QLt g.sys.store.pQueue y x
 
-theorem QSys.cur_popExec {s : QSys} {i : Nat} {c : QClient} {got : List Probe} {e : Nat} {ids : List Nat}
-    (h : s.cur i = some c) (hpc : c.pc = .popExec got e ids) :
-    ∃ c0, s.clients[i]? = some c0 ∧ c0.started = true ∧ c0.pc = .popExec got e ids := by
+theorem QSys.cur_popExec {s : QSys} {i : Nat} {c : QClient} {got : List (Probe × Int)} {e : Nat} {ids : List Nat} {scs : List Int}
+    (h : s.cur i = some c) (hpc : c.pc = .popExec got e ids scs) :
+    ∃ c0, s.clients[i]? = some c0 ∧ c0.started = true ∧ c0.pc = .popExec got e ids scs := by
   obtain ⟨c0, h0, _, rfl⟩ := QSys.cur_some h
   refine ⟨c0, h0, ?_⟩
   unfold QClient.start at hpc
   by_cases hs : c0.started = true
   · simp only [hs, if_true] at hpc; exact ⟨hs, hpc⟩
   · simp only [hs] at hpc
-    exact absurd hpc (QOp.begin_ne_popExec _ _ _ _)
+    exact absurd hpc (QOp.begin_ne_popExec _ _ _ _ _)
 
-theorem SInv.cur {g : GSys} {i : Nat} (h : SInv g i) {c : QClient} {got : List Probe} {e : Nat} {ids : List Nat}
-    (hc : g.sys.cur i = some c) (hpc : c.pc = .popExec got e ids) :
+theorem SInv.cur {g : GSys} {i : Nat} (h : SInv g i) {c : QClient} {got : List (Probe × Int)} {e : Nat} {ids : List Nat} {scs : List Int}
+    (hc : g.sys.cur i = some c) (hpc : c.pc = .popExec got e ids scs) :
     ids.Pairwise (QLt g.sys.store.pQueue) ∧ ∀ y ∈ ids, ∀ x, x ∉ ids → QLt g.sys.store.pQueue y x := by
   obtain ⟨c0, h0, hs, hp⟩ := QSys.cur_popExec hc hpc
-  exact h.pend c0 got e ids h0 hs hp
+  exact h.pend c0 got e ids scs h0 hs hp
 
 theorem set_getElem?_cases {α : Type} {l : List α} {j i : Nat} {a ci : α} (h : (l.set j a)[i]? = some ci) :
     (j = i ∧ ci = a) ∨ (j ≠ i ∧ l[i]? = some ci) := by
@@ -1609,30 +1926,30 @@ theorem SInv.gstep {g g' : GSys} {i : Nat} (hG : GInv g) (h : SInv g i) (hs : GS
   | same => exact h
   | setc j c c' hc hop hpc hst harr hpop =>
     refine ⟨h.sorted, h.below, ?_⟩
-    intro ci got e ids hci hsi hpi
+    intro ci got e ids scs hci hsi hpi
     rcases set_getElem?_cases hci with ⟨rfl, rfl⟩ | ⟨_, hci'⟩
     · rw [hpc] at hpi; exact h.cur hc hpi
-    · exact h.pend ci got e ids hci' hsi hpi
+    · exact h.pend ci got e ids scs hci' hsi hpi
   | other j c c' st' hc hnp hI hQ hcons hop hpc1 hpc2 hst harr hpop =>
     refine ⟨h.sorted, ?_, ?_⟩
     · show ∀ d ∈ myPops i g.pops, ∀ x, PQLt st'.pQueue d x
       rw [hQ]; exact h.below
-    · intro ci got e ids hci hsi hpi
+    · intro ci got e ids scs hci hsi hpi
       show ids.Pairwise (QLt st'.pQueue) ∧ ∀ y ∈ ids, ∀ x, x ∉ ids → QLt st'.pQueue y x
       rw [hQ]
       rcases set_getElem?_cases hci with ⟨rfl, rfl⟩ | ⟨_, hci'⟩
-      · exact absurd hpi (hpc2 _ _ _)
-      · exact h.pend ci got e ids hci' hsi hpi
+      · exact absurd hpi (hpc2 _ _ _ _)
+      · exact h.pend ci got e ids scs hci' hsi hpi
   | range j c c' n got e hc hcop hcpc hop hpc hst harr hpop =>
     refine ⟨h.sorted, h.below, ?_⟩
-    intro ci got' e' ids hci hsi hpi
+    intro ci got' e' ids scs hci hsi hpi
     rcases set_getElem?_cases hci with ⟨rfl, rfl⟩ | ⟨_, hci'⟩
     · rw [hpc] at hpi
       split at hpi
       · cases hpi
       · cases hpi
         exact zrangeUpTo_order _ _ _
-    · exact h.pend ci got' e' ids hci' hsi hpi
+    · exact h.pend ci got' e' ids scs hci' hsi hpi
   | enq j c c' p after before hc hcop hcpc hop hpc hst harr hpop =>
     obtain ⟨hT, hle⟩ := henq _ rfl
     have hle : g.sys.clock ≤ readyOf after c.arrival := hle
@@ -1656,11 +1973,11 @@ theorem SInv.gstep {g g' : GSys} {i : Nat} (hG : GInv g) (h : SInv g i) (hs : GS
         show rd < readyOf after c.arrival ∨ (rd = readyOf after c.arrival ∧ d.id < g.sys.fresh)
         omega
       · exact h.below d hd x rd rx hrd hrx'
-    · intro ci got e ids hci hsi hpi
+    · intro ci got e ids scs hci hsi hpi
       rcases set_getElem?_cases hci with ⟨rfl, rfl⟩ | ⟨_, hci'⟩
       · rw [hpc] at hpi; cases hpi
-      · obtain ⟨h1, h2⟩ := h.pend ci got e ids hci' hsi hpi
-        have hold := (hT.clients i ci hci').pend hsi got e ids hpi
+      · obtain ⟨h1, h2⟩ := h.pend ci got e ids scs hci' hsi hpi
+        have hold := (hT.clients i ci hci').pend hsi got e ids scs hpi
         have hsame : ∀ y ∈ ids, ∀ r, (g.sys.store.pQueue.insert g.sys.fresh (readyOf after c.arrival))[y]? = some r →
             g.sys.store.pQueue[y]? = some r := by
           intro y hy r hr
@@ -1677,7 +1994,7 @@ theorem SInv.gstep {g g' : GSys} {i : Nat} (hG : GInv g) (h : SInv g i) (hs : GS
             show ry < readyOf after c.arrival ∨ (ry = readyOf after c.arrival ∧ y < g.sys.fresh)
             omega
           · exact h2 y hy x hx ry rx hry' hrx'
-  | exec j c c' n got e ids hc hcop hcpc hop hpc hst harr hpop =>
+  | exec j c c' n got e ids scs hc hcop hcpc hop hpc hst harr hpop =>
     have hsub : ∀ (x : Nat) (r : Int), (g.sys.store.popBatch ids).1.pQueue[x]? = some r → x ∉ ids ∧ g.sys.store.pQueue[x]? = some r := by
       intro x r
       rw [popBatch_pQueue]
@@ -1704,9 +2021,9 @@ theorem SInv.gstep {g g' : GSys} {i : Nat} (hG : GInv g) (h : SInv g i) (hs : GS
         · exact h.below d hd x rd rx hrd hrx'
         · obtain ⟨y, hy, pe, _, rfl⟩ := mem_popRecs.1 hd
           exact hB y hy x hx rd rx hrd hrx'
-      · intro ci got' e' ids' hci hsi hpi
+      · intro ci got' e' ids' scs' hci hsi hpi
         rcases set_getElem?_cases hci with ⟨_, rfl⟩ | ⟨hne, _⟩
-        · rw [hpc] at hpi; exact absurd hpi (popNext_ne_popExec _ _ _ _ _ _ _ _)
+        · rw [hpc] at hpi; exact absurd hpi (popNext_ne_popExec _ _ _ _ _ _ _ _ _)
         · exact absurd rfl hne
     · have hmy : myPops i (g.pops ++ g.sys.popRecs j ids) = myPops i g.pops :=
         myPops_append_other _ _ (fun d hd => popRecs_client hd) hji
@@ -1717,10 +2034,10 @@ theorem SInv.gstep {g g' : GSys} {i : Nat} (hG : GInv g) (h : SInv g i) (hs : GS
         rw [hmy]
         intro d hd x rd rx hrd hrx
         exact h.below d hd x rd rx hrd (hsub x rx hrx).2
-      · intro ci got' e' ids' hci hsi hpi
+      · intro ci got' e' ids' scs' hci hsi hpi
         rcases set_getElem?_cases hci with ⟨hji', _⟩ | ⟨_, hci'⟩
         · exact absurd hji' hji
-        · obtain ⟨h1, h2⟩ := h.pend ci got' e' ids' hci' hsi hpi
+        · obtain ⟨h1, h2⟩ := h.pend ci got' e' ids' scs' hci' hsi hpi
           exact ⟨h1.imp (fun hyz => hyz.mono (fun r hr => (hsub _ r hr).2) (fun r hr => (hsub _ r hr).2)),
             fun y hy x hx => (h2 y hy x hx).mono (fun r hr => (hsub _ r hr).2) (fun r hr => (hsub _ r hr).2)⟩
 
@@ -1800,14 +2117,14 @@ theorem SeqInv.run {L i : Nat} {g : GSys} (h : SeqInv L i g) (es : List QSysEv) 
 
 /-- a consumer that has popped nothing and is not between a range and its batch satisfies the order invariant -/
 theorem SInv.ofFresh {g : GSys} {i : Nat} (hfresh : ∀ d ∈ g.pops, d.client ≠ i)
-    (hnot : ∀ c got e ids, g.sys.clients[i]? = some c → c.started = true → c.pc ≠ .popExec got e ids) : SInv g i := by
+    (hnot : ∀ c got e ids scs, g.sys.clients[i]? = some c → c.started = true → c.pc ≠ .popExec got e ids scs) : SInv g i := by
   have : myPops i g.pops = [] := by
     unfold myPops
     rw [List.filter_eq_nil_iff]
     intro d hd; simp [hfresh d hd]
   refine ⟨(by rw [this]; exact List.Pairwise.nil), (by rw [this]; intro d hd; cases hd), ?_⟩
-  intro c got e ids hc hs hpc
-  exact absurd hpc (hnot c got e ids hc hs)
+  intro c got e ids scs hc hs hpc
+  exact absurd hpc (hnot c got e ids scs hc hs)
 
 theorem GSys.run_append (g : GSys) (es1 es2 : List QSysEv) : g.run (es1 ++ es2) = (g.run es1).run es2 := by
   unfold GSys.run; rw [List.foldl_append]
@@ -1893,11 +2210,15 @@ theorem startAll_getElem? {g : GSys} {i : Nat} {c : QClient} (h : g.startAll.sys
     · exact Or.inr h'.symm
 
 theorem GInv.startAll {g : GSys} (h : GInv g) : GInv g.startAll := by
-  refine ⟨h.cons, h.lt, h.enqLt, h.enqInc, h.cover, h.popNodup, h.popOut, h.src, h.popSrc, h.popRet, ?_⟩
-  intro i c hc
-  obtain ⟨c0, h0, rfl | rfl⟩ := startAll_getElem? hc
-  · exact h.clients i _ h0
-  · exact (h.clients i c0 h0).start _
+  refine ⟨h.cons, h.lt, h.enqLt, h.enqInc, h.cover, h.popNodup, h.popOut, h.src, h.popSrc, h.popRet, ?_, ?_⟩
+  · intro i c hc
+    obtain ⟨c0, h0, rfl | rfl⟩ := startAll_getElem? hc
+    · exact h.clients i _ h0
+    · exact (h.clients i c0 h0).start _
+  · intro i c hc
+    obtain ⟨c0, h0, rfl | rfl⟩ := startAll_getElem? hc
+    · exact h.scores i _ h0
+    · exact (h.scores i c0 h0).start _
 
 theorem TInv.startAll {g : GSys} (h : TInv g) : TInv g.startAll := by
   refine ⟨?_, h.popT⟩
